@@ -161,6 +161,7 @@ class Interface(ModelElement):
         for peer in child.get_peers(itype=InterfaceType.ServicePort) or []:
             self.topo.graph_model.remove_cp_and_links(node_id=peer.node_id)
         self.topo.graph_model.remove_cp_and_links(node_id=node_id, delete_parent=False)
+        self._interfaces = list(filter((lambda x: x.node_id != node_id), self._interfaces))
 
     def __list_interfaces(self) -> ViewOnlyDict:
         """
